@@ -124,8 +124,21 @@ def run_sketch(sx, name, iterations, fix_mode="index"):
     sm = SketchSmoother(sketch)
     if fix_mode == "index":
         sm.fix_indexes(fixed)
-    else:
+    elif fix_mode == "position":
         sm.fix_points([np.array(P0[i], dtype=P0.dtype) for i in fixed])
+    else:
+        # the user fixes points in several calls, by position and by index, in a solver-chosen split and order:
+        # everything fixed by any call stays fixed
+        first = [i for i in fixed if sx.flag(f"in_first_call{i}")]
+        rest = [i for i in fixed if i not in first]
+        calls = [("points", first), ("indexes", rest[:1]), ("indexes", rest[1:])]
+        if sx.flag("indexes_first"):
+            calls = calls[1:] + calls[:1]
+        for how, which in calls:
+            if how == "points":
+                sm.fix_points([np.array(P0[i], dtype=P0.dtype) for i in which])
+            else:
+                sm.fix_indexes(which)
     sm.smooth(iterations)
     sx.reach("smoothed")
     got = sketch.positions
@@ -256,6 +269,7 @@ def jobs(tier, seed):
         for it in its:
             add("run_sketch", f"sketch|{name}|it={it}", name=name, iterations=it)
         add("run_sketch", f"sketch|{name}|fix-by-position", name=name, iterations=1, fix_mode="position")
+        add("run_sketch", f"sketch|{name}|fixed in several calls", name=name, iterations=1, fix_mode="several-calls")
         add("run_fixpoint", f"fix-point|{name}", name=name)
     for (nx, ny) in ((2, 2), (3, 3), (4, 2)):
         add("run_regular", f"regular|{nx}x{ny}", nx=nx, ny=ny)
